@@ -13,7 +13,7 @@ DECIDING = ["line_events", "error_events"]
 RULE = (
     "full product policy-subset(64) x fault kind x fault position(first scanned, middle, last, two lines) x "
     "validation-mode override(none; no-raise,no-stop; raise; no-print,fail; match; stop; no-fail,no-print); a two-member named-paths group whose members carry different overrides (the override is for that csvpath only); thorough adds one arg-mismatch "
-    "program per numeric function, OR logic-mode and CsvPaths().csvpath() construction. Non-trivial: the run reaches "
+    "program per numeric function, OR logic-mode and CsvPaths().csvpath() construction; argtype/pyexc faults also under unmatched-mode: keep. Non-trivial: the run reaches "
     "at least one fault line; distinct = distinct (policy, kind, position, override, variant) tuples."
 )
 ASSUMPTIONS = [
@@ -127,6 +127,11 @@ def cases(tier):
             if kind in ("argtype", "nested", "righthand", "direct"):
                 for vm in ("none", "match", "no-print,fail"):
                     yield {"policy": pol, "kind": kind, "pos": "two", "vmode": vm, "variant": "reassigned", "func": None}
+            # the csvpath also keeps its unmatched lines (the offending line does not match: it is one of them)
+            if kind in ("argtype", "pyexc"):
+                for pos in POSITIONS:
+                    for vm in ("none", "stop"):
+                        yield {"policy": pol, "kind": kind, "pos": pos, "vmode": vm, "variant": "keep-unmatched", "func": None}
             # no header row: the first offending line is physical line 0
             for pos in ("first", "two"):
                 for vm in ("none", "no-raise,no-stop"):
@@ -272,6 +277,8 @@ def run_case(case, agg):
         comment += f"validation-mode: {vm.replace(',', ', ')} "
     if variant == "or-mode":
         comment += "logic-mode: OR "
+    if variant == "keep-unmatched":
+        comment += "unmatched-mode: keep "
     prog = (f"~ {comment}~ " if comment else "") + f"${fname}[{'*' if headerless else '1*'}][{m}]"
     eff = effective(pol, vm)
     if variant == "via-csvpaths":
@@ -335,6 +342,11 @@ def run_case(case, agg):
     want_considered = list(range(first_line, cutoff + 1))
     if considered != want_considered:
         problems.append(("stop", f"lines offered to matcher {considered}", f"{want_considered}"))
+    if variant == "keep-unmatched" and exc is None:
+        kept = [ln[0] for ln in (c.unmatched or [])]
+        beyond = [x for x in kept if x not in [str(ev["line"][0]) for ev in rec.lines if ev["pln"] <= cutoff]]
+        if beyond:
+            problems.append(("stop", f"lines kept as unmatched after the run's last line {cutoff}: {beyond}", "none"))
     # match decisions per line
     for ev in rec.lines:
         if not ev["considered"]:
